@@ -32,7 +32,7 @@ func runC09(c *core.Ctx) {
 	c.Rule("R6", "restart from a tokens file goes ACTIVE only with a complete token set", 1)
 	c.Rule("R7", "the wait for permission to join fails only with the caller's own context error (store faults are retried or ignored)", 1)
 	c.Rule("R8", "the tokens file is written whenever tokens are set and a path is configured, whatever the state (tokens obtained while JOINING are the ones a restart must find)", 1)
-	c.Rule("R9", "a failed token pick ends the lifecycler: autoJoin may have changed local state before its store write failed, so the loop must not carry on with it", 2)
+	c.Rule("R9", "a failed token pick ends the lifecycler: autoJoin may have changed local state before its store write failed, so the loop must not carry on with it", 1)
 	c.Rule("R5", "a requested state change is remembered even when the store write fails", 1)
 	pkg := c.Prog.Pkg("ring")
 	if pkg == nil {
